@@ -337,6 +337,138 @@ package fsm
 //@   ensures[stakesigner] isnil(err) && !result.plugin && typeis(result.msg, *MessageStake) ==> bytes(dyn(result.msg, *MessageStake).Signer) == addrOf(result.sender)
 //@   ensures[editsigner] isnil(err) && !result.plugin && typeis(result.msg, *MessageEditStake) ==> bytes(dyn(result.msg, *MessageEditStake).Signer) == addrOf(result.sender)
 
+// ---- C04/C05: message handlers -----------------------------------------------------------------------------
+// drift(s): tokens held (accounts + pools + stakes) minus the recorded total supply. Every handler keeps it
+// (moves tokens, or creates/destroys them in a balance and in the total alike); debits hit only the address
+// the authorization was computed for.
+//@ spec func drift(s *StateMachine) int = allTokens(s) - supTotal(s)
+//@ func (*StateMachine).AccountLockedAmount
+//@   pure
+//@ func (*StateMachine).ValidateAccountAddWithVesting
+//@   pure
+//@ func (*StateMachine).AccountAddWithVesting
+//@   ensures[credit] result == nil ==> acctBal() == old(store(acctBal(), bytes(msg.ToAddress), acctBal(bytes(msg.ToAddress)) + msg.Amount))
+//@   ensures[nowrap] result == nil ==> old(acctBal(bytes(msg.ToAddress))) + msg.Amount <= MaxUint64
+//@   ensures[sum] result == nil ==> acctSum(s) == old(acctSum(s)) + msg.Amount
+//@   ensures[failsafe] result != nil ==> acctBal() == old(acctBal()) && acctSum(s) == old(acctSum(s))
+//@   ensures[frame] poolBal() == old(poolBal()) && poolSum(s) == old(poolSum(s)) && stakeSum(s) == old(stakeSum(s)) && supTotal(s) == old(supTotal(s))
+//@ func (*StateMachine).HandleMessageSend
+//@   callsite AccountSub requires[owner] (msg.FromAddress == nil ? isnil(callee.address) : addrOf(callee.address) == bytes(msg.FromAddress)) && callee.amountToSub == msg.Amount
+//@   ensures[conserve] result == nil ==> drift(s) == old(drift(s)) && supTotal(s) == old(supTotal(s))
+//@   ensures[moves] result == nil ==> acctSum(s) == old(acctSum(s)) && poolBal() == old(poolBal())
+// big-endian encoding of an id into a NEW 8-byte slice (encoding/binary writes only that slice)
+//@ func formatUint64
+//@   trusted
+//@   pure
+//@   ensures len(result) == 8
+// store-level accessors used by the handlers: ASSUMED frames (they go through protobuf and the store
+// interface; the committee/delegation index and the per-committee supply lists are not part of the
+// abstract view, so these only promise what they leave alone)
+//@ func (*StateMachine).Get
+//@   trusted
+//@   pure
+//@ func (*StateMachine).GetValidatorExists
+//@   trusted
+//@   pure
+//@   ensures isnil(result1) && !result0 ==> stakeOf(addrOf(address)) == 0
+//@ func (*StateMachine).SetValidator
+//@   trusted
+//@   modifies ghost(kvHas), ghost(stakeOf), ghost(stakeSum), ghost(valOutput)
+//@   ensures isnil(err) ==> stakeOf() == old(store(stakeOf(), bytes(validator.Address), validator.StakedAmount)) && stakeSum(s) == old(stakeSum(s)) - old(stakeOf(bytes(validator.Address))) + validator.StakedAmount
+//@   ensures isnil(err) ==> valOutput() == old(store(valOutput(), bytes(validator.Address), bytes(validator.Output)))
+//@   ensures !isnil(err) ==> stakeOf() == old(stakeOf()) && stakeSum(s) == old(stakeSum(s)) && valOutput() == old(valOutput())
+//@ func (*StateMachine).SetCommittees
+//@   trusted
+//@   modifies ghost(kvHas)
+//@ func (*StateMachine).SetDelegations
+//@   trusted
+//@   modifies ghost(kvHas)
+//@ func (*StateMachine).CommitteeIsRetired
+//@   trusted
+//@   pure
+//@ func (*StateMachine).SetOrder
+//@   trusted
+//@   modifies ghost(kvHas), ghost(orderSeller)
+//@ func (*StateMachine).DeleteOrder
+//@   trusted
+//@   modifies ghost(kvHas), ghost(orderSeller)
+//@ func (*StateMachine).GetDexBatch
+//@   trusted
+//@   pure
+//@   ensures isnil(result1) ==> result0 != nil && fresh(result0)
+//@ func (*StateMachine).SetDexBatch
+//@   trusted
+//@   modifies ghost(kvHas)
+//@ func (*StateMachine).ApproveProposal
+//@   trusted
+//@   pure
+// the staked / delegated counters of the supply record (not part of drift: they count stakes a second time)
+//@ func (*StateMachine).AddToStakedSupply
+//@   ensures[staked] result == nil ==> supStaked(s) == old(supStaked(s)) + amount
+//@   ensures[frame] supTotal(s) == old(supTotal(s)) && supDelegated(s) == old(supDelegated(s)) && acctBal() == old(acctBal()) && poolBal() == old(poolBal()) && allTokens(s) == old(allTokens(s)) && stakeOf() == old(stakeOf())
+//@   ensures[failsafe] result != nil ==> supStaked(s) == old(supStaked(s))
+//@ func (*StateMachine).AddToDelegateSupply
+//@   ensures[delegated] result == nil ==> supDelegated(s) == old(supDelegated(s)) + amount
+//@   ensures[frame] supTotal(s) == old(supTotal(s)) && supStaked(s) == old(supStaked(s)) && acctBal() == old(acctBal()) && poolBal() == old(poolBal()) && allTokens(s) == old(allTokens(s)) && stakeOf() == old(stakeOf())
+//@   ensures[failsafe] result != nil ==> supDelegated(s) == old(supDelegated(s))
+
+// stake: the verified signer pays exactly the stake; the new validator record holds exactly that amount
+//@ func (*StateMachine).HandleMessageStake
+//@   callsite AccountSub requires[owner] addrOf(callee.address) == bytes(msg.Signer) && callee.amountToSub == msg.Amount
+//@   ensures[conserve] result == nil ==> drift(s) == old(drift(s)) && supTotal(s) == old(supTotal(s))
+//@   ensures[tally] result == nil ==> supStaked(s) == old(supStaked(s)) + msg.Amount && stakeSum(s) == old(stakeSum(s)) + msg.Amount
+// edit-stake: only the verified signer pays, only the increase; the output address changes only when the
+// CURRENT output address signed
+//@ func (*StateMachine).HandleMessageEditStake
+//@   callsite AccountSub requires[owner] addrOf(callee.address) == bytes(msg.Signer) && callee.amountToSub == (msg.Amount > val.StakedAmount ? msg.Amount - val.StakedAmount : 0)
+//@   callsite UpdateValidatorStake requires[redirect] bytes(callee.val.Output) != bytes(val.Output) ==> bytes(msg.Signer) == bytes(val.Output)
+//@   callsite UpdateValidatorStake requires[same] bytes(callee.val.Address) == bytes(val.Address) && callee.val.StakedAmount == val.StakedAmount && callee.amountToAdd == (msg.Amount > val.StakedAmount ? msg.Amount - val.StakedAmount : 0)
+//@   ensures[conserve] result == nil ==> drift(s) == old(drift(s)) && supTotal(s) == old(supTotal(s))
+// subsidy, order creation, DEX orders and deposits: the authorized address pays, a pool receives the same amount
+//@ func (*StateMachine).HandleMessageSubsidy
+//@   callsite AccountSub requires[owner] (msg.Address == nil ? isnil(callee.address) : addrOf(callee.address) == bytes(msg.Address)) && callee.amountToSub == msg.Amount
+//@   ensures[conserve] result == nil ==> drift(s) == old(drift(s)) && supTotal(s) == old(supTotal(s)) && stakeSum(s) == old(stakeSum(s))
+//@ func (*StateMachine).HandleMessageCreateOrder
+//@   callsite AccountSub requires[owner] addrOf(callee.address) == bytes(msg.SellersSendAddress) && callee.amountToSub == msg.AmountForSale
+//@   callsite PoolAdd requires[escrow] callee.amountToAdd == msg.AmountForSale
+//@   ensures[conserve] err == nil ==> drift(s) == old(drift(s)) && supTotal(s) == old(supTotal(s)) && stakeSum(s) == old(stakeSum(s))
+// order edit / delete: only the seller recorded in the STORED order is debited or refunded, by exactly the
+// change of the escrowed amount
+//@ func (*StateMachine).HandleMessageEditOrder
+//@   callsite AccountSub requires[owner] addrOf(callee.address) == orderSeller(msg.ChainId)[bytes(msg.OrderId)] && callee.amountToSub == msg.AmountForSale - order.AmountForSale && msg.AmountForSale > order.AmountForSale
+//@   callsite AccountAdd requires[refund] addrOf(callee.address) == orderSeller(msg.ChainId)[bytes(msg.OrderId)] && callee.amountToAdd == order.AmountForSale - msg.AmountForSale && msg.AmountForSale < order.AmountForSale
+//@   ensures[conserve] err == nil ==> drift(s) == old(drift(s)) && supTotal(s) == old(supTotal(s)) && stakeSum(s) == old(stakeSum(s))
+//@ func (*StateMachine).HandleMessageDeleteOrder
+//@   callsite AccountAdd requires[refund] addrOf(callee.address) == orderSeller(msg.ChainId)[bytes(msg.OrderId)] && callee.amountToAdd == order.AmountForSale
+//@   callsite PoolSub requires[escrow] callee.amountToSub == order.AmountForSale
+//@   ensures[conserve] err == nil ==> drift(s) == old(drift(s)) && supTotal(s) == old(supTotal(s)) && stakeSum(s) == old(stakeSum(s))
+//@ func (*StateMachine).HandleMessageDexLimitOrder
+//@   callsite AccountSub requires[owner] addrOf(callee.address) == bytes(msg.Address) && callee.amountToSub == msg.AmountForSale
+//@   ensures[conserve] err == nil ==> drift(s) == old(drift(s)) && supTotal(s) == old(supTotal(s)) && stakeSum(s) == old(stakeSum(s))
+//@ func (*StateMachine).HandleMessageDexLiquidityDeposit
+//@   callsite AccountSub requires[owner] addrOf(callee.address) == bytes(msg.Address) && callee.amountToSub == msg.Amount
+//@   ensures[conserve] err == nil ==> drift(s) == old(drift(s)) && supTotal(s) == old(supTotal(s)) && stakeSum(s) == old(stakeSum(s))
+//@ func (*StateMachine).HandleMessageDexLiquidityWithdraw
+//@   ensures[conserve] err == nil ==> drift(s) == old(drift(s)) && supTotal(s) == old(supTotal(s)) && acctBal() == old(acctBal()) && poolBal() == old(poolBal())
+// unstake / pause / unpause move no tokens
+//@ func (*StateMachine).HandleMessageUnstake
+//@   ensures[conserve] result == nil ==> drift(s) == old(drift(s)) && supTotal(s) == old(supTotal(s)) && acctBal() == old(acctBal()) && poolBal() == old(poolBal()) && stakeSum(s) == old(stakeSum(s))
+//@ func (*StateMachine).HandleMessagePause
+//@   ensures[conserve] result == nil ==> drift(s) == old(drift(s)) && supTotal(s) == old(supTotal(s)) && acctBal() == old(acctBal()) && poolBal() == old(poolBal()) && stakeSum(s) == old(stakeSum(s))
+//@ func (*StateMachine).HandleMessageUnpause
+//@   ensures[conserve] result == nil ==> drift(s) == old(drift(s)) && supTotal(s) == old(supTotal(s)) && acctBal() == old(acctBal()) && poolBal() == old(poolBal()) && stakeSum(s) == old(stakeSum(s))
+// DAO transfer: the only handler that may create tokens, and then in the total and the DAO pool alike
+//@ func (*StateMachine).HandleMessageDAOTransfer
+//@   ensures[conserve] result == nil ==> drift(s) == old(drift(s))
+//@   ensures[mint] result == nil ==> supTotal(s) == old(supTotal(s)) + (msg.Mint ? msg.Amount : 0)
+//@   ensures[pays] result == nil ==> acctSum(s) == old(acctSum(s)) + msg.Amount
+// the dispatcher: whatever the message type (certificate results and parameter changes excepted: their
+// handlers - rewards, slashes, swaps, parameter conformance - are not under contract), a handled message keeps
+// drift, and only a DAO transfer that says so mints
+//@ func (*StateMachine).HandleMessage
+//@   ensures[conserve] result == nil && !typeis(msg, *MessageCertificateResults) && !typeis(msg, *MessageChangeParameter) ==> drift(s) == old(drift(s))
+//@   ensures[nomint] result == nil && !typeis(msg, *MessageCertificateResults) && !typeis(msg, *MessageChangeParameter) && !typeis(msg, *MessageDAOTransfer) ==> supTotal(s) == old(supTotal(s))
+
 // ---- C12: staking bookkeeping ---------------------------------------------------------------------------------
 // Abstract key/value view of the working store (ghost kvHas: which keys are present), seen through the
 // FSM's Set/Delete wrappers (assumed; store semantics are decided separately under C10), and the key
@@ -368,6 +500,13 @@ package fsm
 // Every caller in the repository must establish this (requires-propagation).
 //@ func (*StateMachine).SetValidatorUnstaking
 //@   requires[notyet] validator.UnstakingHeight == 0 || validator.UnstakingHeight == finishUnstakingHeight
+//@   ensures[stake] result == nil && old(validator.StakedAmount == stakeOf(bytes(validator.Address))) ==> stakeSum(s) == old(stakeSum(s)) && stakeOf() == old(stakeOf())
+// a status change re-writes the record with the stake it was loaded with: no stake changes hands
+//@ func (*StateMachine).SetValidatorPaused
+//@   ensures[stake] result == nil && old(validator.StakedAmount == stakeOf(bytes(validator.Address))) ==> stakeSum(s) == old(stakeSum(s)) && stakeOf() == old(stakeOf())
+//@ func (*StateMachine).SetValidatorUnpaused
+//@   ensures[stake] result == nil && old(validator.StakedAmount == stakeOf(bytes(validator.Address))) ==> stakeSum(s) == old(stakeSum(s)) && stakeOf() == old(stakeOf())
+//@   ensures[keeps] validator.StakedAmount == old(validator.StakedAmount) && validator.Address == old(validator.Address)
 // parameter reads do not write state
 //@ func (*StateMachine).GetParamsVal
 //@   trusted
